@@ -158,7 +158,8 @@ func propC20(c *ctx) error {
 					s := r.pick(strs)
 					switch {
 					case r.p(15):
-						args[a], isLit[a] = r.pick([]string{"name", "1", "a + 'b'", "('par')", "T('inner')"}), false
+						// (an argument that merely BEGINS or ENDS with a string literal is an expression, not a literal)
+						args[a], isLit[a] = r.pick([]string{"name", "1", "a + 'b'", "('par')", "T('inner')", "'b' + a", "'x' + 'y'", "`r` + name", "'lit' + 1", "a == 'b' ? 'c' : 'd'", "'p' + ('q')"}), false
 					default:
 						text, _ := lit(s)
 						if strings.Contains(text, "\"") { // keep the double-quoted attribute intact
